@@ -8,9 +8,42 @@ CLEAN, RESTORED, DIRTY = 0, 1, 2
 NAMES = {CLEAN: 'clean', RESTORED: 'restored', DIRTY: 'dirty'}
 
 
-def self_field(pl, self_local=1):
+_ALIASES = {}
+
+
+def self_aliases(body):
+    """locals that are (re)borrows or copies of the whole `self` reference (`&mut *self`, `move self_ref`): writes
+    through them are writes to self — this is what a helper taking `&mut self` looks like after it was inlined"""
+    key = id(body)
+    if key in _ALIASES:
+        return _ALIASES[key]
+    al = {1}
+    changed = True
+    while changed:
+        changed = False
+        for blk in body.blocks:
+            for s in blk['st']:
+                if s['k'] != 'assign' or s['lhs']['p'] or s['lhs']['l'] in al:
+                    continue
+                rv = s['rv']
+                src = None
+                if rv['k'] in ('ref', 'rawptr'):
+                    pk = [p for p in rv['pl']['p'] if p != '*']
+                    if not pk:
+                        src = rv['pl']['l']
+                elif rv['k'] == 'use' and rv['op']['k'] in ('move', 'copy') and not rv['op']['pl']['p']:
+                    src = rv['op']['pl']['l']
+                if src in al and ('&' in body.locals[s['lhs']['l']][:5]) and \
+                        body.locals[s['lhs']['l']].lstrip('&mut ').split('<')[0] == body.locals[1].lstrip('&mut ').split('<')[0]:
+                    al.add(s['lhs']['l'])
+                    changed = True
+    _ALIASES[key] = al
+    return al
+
+
+def self_field(pl, self_local=1, aliases=None):
     """(field name | None for whole self, rest) if the place is rooted at *self"""
-    if pl['l'] != self_local:
+    if pl['l'] != self_local and not (aliases and pl['l'] in aliases):
         return False, None
     pk = [proj_key(p) for p in pl['p']]
     pk = [p for p in pk if p != '*']
@@ -64,7 +97,7 @@ class Summary:
             for si, s in enumerate(b['st']):
                 if s['k'] != 'assign':
                     continue
-                is_self, f = self_field(s['lhs'])
+                is_self, f = self_field(s['lhs'], aliases=self_aliases(body))
                 rv = s['rv']
                 if is_self and s['lhs']['p'] and f is not None:
                     pk = [p for p in (proj_key(p) for p in s['lhs']['p']) if p != '*']
@@ -75,7 +108,7 @@ class Summary:
                     else:
                         bad.add(f)
                 if rv['k'] in ('ref', 'rawptr') and (rv.get('mut') or rv['k'] == 'rawptr'):
-                    is_self2, f2 = self_field(rv['pl'])
+                    is_self2, f2 = self_field(rv['pl'], aliases=self_aliases(body))
                     if is_self2 and f2 is not None:
                         bad.add(f2)
                     elif is_self2:
@@ -97,7 +130,7 @@ class Summary:
             for s in b['st']:
                 if s['k'] != 'assign':
                     continue
-                is_self, f = self_field(s['lhs'])
+                is_self, f = self_field(s['lhs'], aliases=self_aliases(body))
                 if is_self and s['lhs']['p']:
                     if f is None:
                         out |= set(all_fields)
@@ -105,7 +138,7 @@ class Summary:
                         out.add(f)
                 rv = s['rv']
                 if rv['k'] == 'ref' and rv['mut']:
-                    is_self, f = self_field(rv['pl'])
+                    is_self, f = self_field(rv['pl'], aliases=self_aliases(body))
                     if is_self:
                         if f is None:
                             reborrows.add(s['lhs']['l'])
@@ -165,7 +198,7 @@ class RestoreAnalysis:
             if s['k'] != 'assign':
                 continue
             rv = s['rv']
-            is_self, f = self_field(s['lhs'])
+            is_self, f = self_field(s['lhs'], aliases=self_aliases(body))
             if is_self and s['lhs']['p']:
                 pk = [p for p in (proj_key(p) for p in s['lhs']['p']) if p != '*']
                 whole_field = len(pk) == 1
@@ -186,7 +219,7 @@ class RestoreAnalysis:
                                                     'already modified' % f))
                     st[f] = new
             if rv['k'] in ('ref', 'rawptr') and (rv.get('mut') or rv['k'] == 'rawptr'):
-                is_self, f = self_field(rv['pl'])
+                is_self, f = self_field(rv['pl'], aliases=self_aliases(body))
                 if is_self:
                     if f is None:
                         reborrows.add(s['lhs']['l'])
